@@ -1,11 +1,11 @@
 package checks
 
 import (
-	"errors"
 	"bytes"
 	"context"
 	"encoding/base64"
 	"encoding/hex"
+	"errors"
 	"fmt"
 	"net"
 	"sync"
@@ -17,13 +17,15 @@ import (
 	"verifharness/sim"
 
 	"github.com/btcsuite/btcd/btcec/v2"
+	"github.com/lightninglabs/lightning-node-connect/mailbox"
+	"github.com/lightningnetwork/lnd/keychain"
 )
 
 func TestC03(t *testing.T) {
 	mon.Main(t, mon.Check{
 		ID:          "C03",
 		Level:       "exploration",
-		Rule:        "real noise Machines over an in-memory duplex that records every byte each party writes. Mismatch cases: first-time (XX) handshakes whose two passphrase entropies differ in exactly one bit (all 112 single-bit differences over the run) or are unrelated; repeat (KK) handshakes in which the responder's stored initiator key is wrong, the initiator's stored responder key is wrong, both are wrong, one side stored its own key, or the initiator presents the paired public key without holding the private key; for all initiator/responder version ranges in {0,1,2}^4 with min<=max and auth payload sizes {0,1,498,499,65535,1 MiB}. Oracle on a mismatch: the responder returns an error having written zero bytes, the initiator returns an error, neither machine holds traffic keys, the initiator's auth-data callback never ran and its ConnData holds no payload, no stored remote key changed, and the auth payload marker (raw, hex, base64) is absent from every byte written. Control: the same configuration with matching secrets must complete whenever the version ranges intersect (otherwise the monitor would pass vacuously). One case in eight is a sequence on the same ConnData objects with the application callbacks installed: a version-2 pairing, then (a) an initiator with another static key and the passphrase calls the paired responder, (b) the paired initiator calls a responder with another static key and the passphrase, for the version ranges of the slice, (c) the paired parties reconnect as control; oracle as above plus: stored keys and auth data of the paired parties unchanged. The paired sequences end with two more first-time clients served from the responder's passphrase buffer (all-zero passphrase: must be refused; right passphrase: control). A few cases per run go through NoiseGrpcConn.ClientHandshake/ServerHandshake over a transport that honours read deadlines and stays open (real time, 5 s each): a mismatch with a silently aborting responder, and a responder whose peer says nothing - neither call may report success. Non-trivial = a mismatch case whose matching control completed; distinct = (pattern, mismatch kind, version ranges, payload size).",
+		Rule:        "real noise Machines over an in-memory duplex that records every byte each party writes. Mismatch cases: first-time (XX) handshakes whose two passphrase entropies differ in exactly one bit (all 112 single-bit differences over the run) or are unrelated; repeat (KK) handshakes in which the responder's stored initiator key is wrong, the initiator's stored responder key is wrong, both are wrong, one side stored its own key, or the initiator presents the paired public key without holding the private key; for all initiator/responder version ranges in {0,1,2}^4 with min<=max and auth payload sizes {0,1,498,499,65535,1 MiB}. Oracle on a mismatch: the responder returns an error having written zero bytes, the initiator returns an error, neither machine holds traffic keys, the initiator's auth-data callback never ran and its ConnData holds no payload, no stored remote key changed, and the auth payload marker (raw, hex, base64) is absent from every byte written. Control: the same configuration with matching secrets must complete whenever the version ranges intersect (otherwise the monitor would pass vacuously). One case in eight is a sequence on the same ConnData objects with the application callbacks installed: a version-2 pairing, then (a) an initiator with another static key and the passphrase calls the paired responder, (b) the paired initiator calls a responder with another static key and the passphrase, for the version ranges of the slice, (c) the paired parties reconnect as control; oracle as above plus: stored keys and auth data of the paired parties unchanged. The paired sequences end with two more first-time clients served from the responder's passphrase buffer (all-zero passphrase: must be refused; right passphrase: control). A few cases per run go through NoiseGrpcConn.ClientHandshake/ServerHandshake over a transport that honours read deadlines and stays open (real time, 5 s each): a mismatch with a silently aborting responder, and a responder whose peer says nothing - neither call may report success. Non-trivial = a mismatch case whose matching control completed; distinct = (pattern, mismatch kind, version ranges, payload size). Credentials-object sequences at the NoiseGrpcConn level (16 per quick run): a pairing whose listener-side deadline reset fails after the noise handshake completed, then a different client with only the passphrase on the same credentials object (must be refused before the responder writes), then the paired client's reconnect as control. Forged key-based act one (16 per quick run): an impostor that knows only the two public static keys omits every DH result from the key derivation (hook; transcript and framing by the real code) and sends it to a paired responder whose signer works or fails: abort, nothing written, no keys.",
 		Assumptions: []string{"the observable form of 'never released' is decided: bytes the responder wrote; no claim about computational secrecy", "scrypt cost lowered by the repository's own rpctest tag except for one production-parameter slice per run"},
 		NCases: func(tier string) int {
 			if tier == "thorough" {
@@ -342,7 +344,80 @@ func runC03GrpcSequence(c *mon.Case) {
 	}
 }
 
+// runC03ForgedKK: an impostor that knows only the two public static keys of a
+// paired couple builds act one of the key-based pattern with every
+// Diffie-Hellman result left out of the key derivation (hook
+// VerifForgeKKActOneNoDH; transcript and framing by the real code) and sends it
+// to the paired responder - whose own static-key operations work, or fail (a
+// locked wallet, a remote signer that is down). The responder must abort
+// without writing anything and without session keys in either case.
+func runC03ForgedKK(c *mon.Case) {
+	rng := c.Rng
+	keyA, keyS := eng.NewKey(rng), eng.NewKey(rng)
+	auth := authMarker(rng, 80)
+	flaky := c.Idx/56%2 == 0
+	var signer keychain.SingleKeyECDH = keyS
+	if flaky {
+		signer = &eng.FlakySigner{PrivKeyECDH: keyS, Fail: true}
+	}
+	cd := mailbox.NewConnData(signer, keyA.PubKey(), eng.Entropy(rng), auth, nil, nil)
+	m, err := mailbox.NewBrontideMachine(&mailbox.BrontideMachineConfig{
+		Initiator: false, HandshakePattern: cd.HandshakePattern(), ConnData: cd,
+		MinHandshakeVersion: 2, MaxHandshakeVersion: 2,
+	})
+	if err != nil {
+		c.Shard.Inconc("responder machine: " + err.Error())
+		return
+	}
+	act, err := mailbox.VerifForgeKKActOneNoDH(2, keyA.PubKey(), keyS.PubKey())
+	if err != nil {
+		c.Shard.Inconc("forging act one: " + err.Error())
+		return
+	}
+	in, out := sim.NewHalf(), sim.NewHalf()
+	in.Inject(act)
+	in.Close()
+	herr := m.DoHandshake(&sim.Duplex{In: in, Out: out})
+	written := 0
+	for _, w := range out.Written {
+		written += len(w)
+	}
+	snap := m.VerifSnapshot()
+	rep := map[string]any{"kind": "forged-kk-act-one", "responder_signer_fails": flaky, "responder_err": fmt.Sprint(herr), "responder_bytes": written}
+	if herr == nil {
+		c.Shard.Violate("forged|responder-completed", fmt.Sprintf("a paired responder (signer failing: %v) completed the key-based handshake with a peer that holds neither static private key", flaky), rep)
+	}
+	if written != 0 {
+		c.Shard.Violate("forged|responder-wrote", fmt.Sprintf("a paired responder (signer failing: %v) answered a forged act one with %d bytes", flaky, written), rep)
+	}
+	if snap.HaveSendCipher || snap.HaveRecvCipher {
+		c.Shard.Violate("forged|responder-has-keys", "the responder holds session keys after a forged act one", rep)
+	}
+	if w := wireContains(out.Written, auth); w != "" {
+		c.Shard.Violate("forged|auth-on-wire", "the auth payload appears ("+w+") in what the responder wrote", rep)
+	}
+	// control: the paired client itself completes with a working responder
+	if !flaky {
+		res := eng.RunHandshake(eng.HSConfig{KK: true, CMin: 2, CMax: 2, SMin: 2, SMax: 2, PassC: eng.Entropy(rng), PassS: eng.Entropy(rng), Auth: auth, KeyC: keyA, KeyS: keyS})
+		if !res.OK() {
+			c.Shard.Violate("forged|control-failed", fmt.Sprintf("the paired client could not complete the key-based handshake: %v / %v", res.C.Err, res.S.Err), rep)
+		} else {
+			c.Shard.Count("controls_completed", 1)
+		}
+	}
+	c.Shard.Count("mismatch_handshakes", 1)
+	c.Shard.Count("forged_act_one_cases", 1)
+	c.Shard.Eval(fmt.Sprintf("forged-kk|%v", flaky))
+	if c.Idx%112 == 25 {
+		c.Shard.Sample(rep)
+	}
+}
+
 func runC03(c *mon.Case) {
+	if c.Idx%56 == 25 || c.Idx%56 == 41 {
+		runC03ForgedKK(c)
+		return
+	}
 	if c.Idx%56 == 9 {
 		runC03GrpcOpenTransport(c)
 		return
